@@ -331,6 +331,7 @@ func runC06(c *Ctx) {
 	ruleOffsets(c, p)
 	ruleDecodeLoops(c, p)
 	rulePanics(c, p)
+	ruleSliceOrder(c, p, "C06.slices")
 	ruleCaps(c, p)
 	ruleResetBefore(c, p, "C06.rowcount")
 	c.R.Assumptions = append(c.R.Assumptions,
@@ -475,6 +476,40 @@ func ruleOffsets(c *Ctx, p *core.Program) {
 					}, false)
 				}
 				if !fromOff(bo.X) || !fromOff(bo.Y) {
+					continue
+				}
+				// the two operands are neighbours: the current element against a
+				// loop-carried copy of the previous one, or elements i and i±1
+				neighbours := func(a, b ssa.Value) bool {
+					if ph, ok := a.(*ssa.Phi); ok && core.InLoop(ph) {
+						for _, e := range ph.Edges {
+							if e == b {
+								return true
+							}
+						}
+					}
+					idx := func(v ssa.Value) ssa.Value {
+						if u, ok := v.(*ssa.UnOp); ok && u.Op == token.MUL {
+							if ia, ok := u.X.(*ssa.IndexAddr); ok {
+								return ia.Index
+							}
+						}
+						if ix, ok := v.(*ssa.Index); ok {
+							return ix.Index
+						}
+						return nil
+					}
+					ia, ib := idx(a), idx(b)
+					if ia != nil && ib != nil {
+						if d, ok := ia.(*ssa.BinOp); ok && (d.Op == token.ADD || d.Op == token.SUB) && d.X == ib {
+							if k, okc := core.ConstInt(d.Y); okc && k == 1 {
+								return true
+							}
+						}
+					}
+					return false
+				}
+				if !neighbours(bo.X, bo.Y) && !neighbours(bo.Y, bo.X) {
 					continue
 				}
 				// one edge must lead only to failure
@@ -838,4 +873,129 @@ func isRecvConfig(v ssa.Value) bool {
 		}
 		return false
 	}
+}
+
+// ---- C06.slices
+// ruleSliceOrder: string/byte slices whose two bounds come from two different searches.
+func ruleSliceOrder(c *Ctx, p *core.Program, rule string) {
+	c.R.Rule(rule, "in package proto, every slice expression s[a:b] whose bounds derive from two different search results (strings/bytes Index*, LastIndex*) is reachable only through a comparison that orders the two results: `Foo)(`-shaped input from the wire (a column type string) otherwise slices with a > b and panics")
+	cfg := p.Cfg.Name
+	isSearch := func(v ssa.Value) *ssa.Call {
+		cl, ok := v.(*ssa.Call)
+		if !ok {
+			return nil
+		}
+		f := core.CalleeFunc(cl)
+		if f == nil || f.Pkg() == nil || (f.Pkg().Path() != "strings" && f.Pkg().Path() != "bytes") {
+			return nil
+		}
+		if strings.HasPrefix(f.Name(), "Index") || strings.HasPrefix(f.Name(), "LastIndex") {
+			return cl
+		}
+		return nil
+	}
+	sources := func(v ssa.Value) map[*ssa.Call]bool {
+		out := map[*ssa.Call]bool{}
+		core.DependsOn(v, func(x ssa.Value) bool {
+			if cl := isSearch(x); cl != nil {
+				out[cl] = true
+			}
+			return false
+		}, false)
+		return out
+	}
+	n := 0
+	for _, fn := range p.Funcs() {
+		if pkgOf(fn) == nil || pkgOf(fn).Path() != core.PkgProto || fn.Blocks == nil {
+			continue
+		}
+		k := 0
+		for _, b := range fn.Blocks {
+			for _, in := range b.Instrs {
+				sl, ok := in.(*ssa.Slice)
+				if !ok || sl.Low == nil || sl.High == nil {
+					continue
+				}
+				lo, hi := sources(sl.Low), sources(sl.High)
+				if len(lo) == 0 || len(hi) == 0 {
+					continue
+				}
+				same := true
+				for x := range lo {
+					if !hi[x] {
+						same = false
+					}
+				}
+				for x := range hi {
+					if !lo[x] {
+						same = false
+					}
+				}
+				if same {
+					continue
+				}
+				n++
+				k++
+				key := sprintf("%s/slice#%d", core.FuncName(fn), k)
+				from := func(v ssa.Value, set map[*ssa.Call]bool) bool {
+					s := sources(v)
+					if len(s) == 0 {
+						return false
+					}
+					for x := range s {
+						if !set[x] {
+							return false
+						}
+					}
+					return true
+				}
+				// edges of comparisons between the two results (either polarity orders them on one side)
+				var ordered []core.Edge
+				for _, h := range fn.Blocks {
+					ifi, ok := h.Instrs[len(h.Instrs)-1].(*ssa.If)
+					if !ok {
+						continue
+					}
+					bo, ok := ifi.Cond.(*ssa.BinOp)
+					if !ok {
+						continue
+					}
+					var loLeft bool
+					switch {
+					case from(bo.X, lo) && from(bo.Y, hi):
+						loLeft = true
+					case from(bo.X, hi) && from(bo.Y, lo):
+						loLeft = false
+					default:
+						continue
+					}
+					// which successor implies lo <= hi (or lo < hi)
+					succ := -1
+					switch bo.Op {
+					case token.LSS, token.LEQ: // X < Y true
+						if loLeft {
+							succ = 0
+						} else {
+							succ = 1
+						}
+					case token.GTR, token.GEQ:
+						if loLeft {
+							succ = 1
+						} else {
+							succ = 0
+						}
+					}
+					if succ >= 0 {
+						ordered = append(ordered, core.Edge{B: h, Succ: succ})
+					}
+				}
+				if len(ordered) > 0 && core.OnlyViaEdges(fn, sl, ordered) {
+					c.R.Ok(rule, key, cfg, p.Pos(sl.Pos()), "bounds ordered by a comparison on every path")
+				} else {
+					c.R.Bad(rule, key, cfg, p.Pos(sl.Pos()), "slice bounds come from two independent searches and no comparison orders them on every path to the slice: input where the second delimiter precedes the first panics (slice bounds out of range)")
+				}
+			}
+		}
+	}
+	c.R.Floor(rule, cfg, n, 1)
 }
